@@ -50,7 +50,7 @@ fn use_module(rd: &mut Rd, m: &str, labels: &mut Vec<&'static str>) -> Vec<Stmt>
     let mut out = Vec::new();
     let n = 1 + rd.below(4);
     for _ in 0..n {
-        match rd.below(8) {
+        match rd.below(12) {
             0 => out.push(Stmt::print(Expr::get(v(m), "tag"))),
             1 => out.push(Stmt::print(Expr::invoke(v(m), "bump", vec![]))),
             2 => out.push(Stmt::print(Expr::get(v(m), "counter"))),
@@ -62,7 +62,48 @@ fn use_module(rd: &mut Rd, m: &str, labels: &mut Vec<&'static str>) -> Vec<Stmt>
             4 => out.push(Stmt::print(Expr::get(v(m), "missing_member"))),
             5 => out.push(Stmt::print(Expr::invoke(v(m), "uses_builtins", vec![]))),
             6 => out.push(Stmt::print(Expr::invoke(v(m), "reads_importer_global", vec![]))),
-            _ => out.push(Stmt::print(v(m))),
+            7 => out.push(Stmt::print(v(m))),
+            8 | 9 => {
+                // a fiber whose body is a function of the other module: after every switch each
+                // side sees its own module's globals
+                labels.push("module_function_fiber");
+                let two = rd.flag();
+                let mut b = vec![
+                    Stmt::var("mfb", Some(Expr::invoke(v("Fiber"), "new", vec![Expr::get(v(m), "stepper")]))),
+                    Stmt::print(Expr::invoke(v("mfb"), "call", vec![s("start")])),
+                    Stmt::print(Expr::VecLit(vec![v("tag"), v("counter")])),
+                    Stmt::print(Expr::invoke(v("mfb"), "call", vec![s("resumed")])),
+                    Stmt::print(Expr::VecLit(vec![v("tag"), v("counter")])),
+                ];
+                if two {
+                    b.push(Stmt::print(Expr::invoke(v("mfb"), "call", vec![])));
+                    b.push(Stmt::print(Expr::VecLit(vec![v("tag"), v("counter"), Expr::invoke(v("mfb"), "has_finished", vec![])])));
+                }
+                b.push(Stmt::print(Expr::get(v(m), "counter")));
+                out.push(Stmt::new(StmtKind::Block(b)));
+            }
+            10 => {
+                // a closure of this module called from inside the other module's function
+                labels.push("callback_across_modules");
+                let l = Expr::Lambda(Rc::new(FnDef {
+                    name: RefCell::new(String::new()),
+                    params: vec![],
+                    body: Body::Expr(Box::new(Expr::VecLit(vec![v("tag"), v("counter")]))),
+                    kind: FnKind::Lambda,
+                }));
+                out.push(Stmt::print(Expr::invoke(v(m), "apply", vec![l])));
+                out.push(Stmt::print(Expr::VecLit(vec![v("tag"), v("counter")])));
+            }
+            _ => {
+                // an exception raised inside the other module's function, caught here
+                labels.push("throw_across_modules");
+                out.push(Stmt::new(StmtKind::Try(
+                    vec![Stmt::print(Expr::invoke(v(m), "fails", vec![s("boom")]))],
+                    Some(("xe".into(), vec![Stmt::print(Expr::VecLit(vec![v("xe"), v("tag"), v("counter")]))])),
+                    if rd.flag() { Some(vec![Stmt::print(Expr::VecLit(vec![s("finally"), v("tag")]))]) } else { None },
+                )));
+                out.push(Stmt::print(Expr::VecLit(vec![v("tag"), v("counter")])));
+            }
         }
     }
     out
@@ -118,6 +159,34 @@ pub fn program(data: &[u8]) -> (Program, Vec<&'static str>) {
                 Expr::bin(BinOp::Eq, Expr::callv("type", vec![Expr::invoke(v("StopIter"), "new", vec![])]), v("StopIter")),
             ]))))],
         ));
+        // a function used as a fiber body by importers: touches this module's globals around a yield
+        body.push(fdef(
+            "stepper",
+            &["a"],
+            vec![
+                Stmt::expr(Expr::assign_var("counter", Expr::bin(BinOp::Add, v("counter"), Expr::Num(1.0)))),
+                Stmt::var("got", Some(Expr::invoke(v("Fiber"), "yield", vec![Expr::VecLit(vec![v("tag"), v("counter"), v("a")])]))),
+                Stmt::expr(Expr::assign_var("counter", Expr::bin(BinOp::Add, v("counter"), Expr::Num(100.0)))),
+                Stmt::var("got2", Some(Expr::invoke(v("Fiber"), "yield", vec![Expr::VecLit(vec![v("tag"), v("counter"), v("got")])]))),
+                Stmt::new(StmtKind::Return(Some(Expr::VecLit(vec![v("tag"), v("counter"), v("got2")])))),
+            ],
+        ));
+        body.push(fdef(
+            "apply",
+            &["f"],
+            vec![
+                Stmt::var("r", Some(Expr::callv("f", vec![]))),
+                Stmt::new(StmtKind::Return(Some(Expr::VecLit(vec![v("r"), v("tag"), v("counter")])))),
+            ],
+        ));
+        body.push(fdef(
+            "fails",
+            &["x"],
+            vec![
+                Stmt::expr(Expr::assign_var("counter", Expr::bin(BinOp::Add, v("counter"), Expr::Num(1.0)))),
+                Stmt::new(StmtKind::Throw(Expr::VecLit(vec![v("x"), v("tag")]))),
+            ],
+        ));
         // a global that exists only in the importer must not be visible here
         body.push(fdef("reads_importer_global", &[], vec![Stmt::new(StmtKind::Return(Some(v("only_in_main"))))]));
         // imports of other modules (any index: forward edges make DAGs, backward and self edges cycles)
@@ -145,6 +214,18 @@ pub fn program(data: &[u8]) -> (Program, Vec<&'static str>) {
                 labels.push("import_in_function");
             } else {
                 body.push(guarded_import(&paths[j], alias.as_deref(), &mut counter, uses));
+            }
+        }
+        if rd.chance(1, 8) {
+            // a module whose top-level code fails part-way: an unguarded import (a cycle or a missing
+            // module raises here) or a plain throw; its importers catch the error, and importing it
+            // again must not run its top-level code a second time
+            labels.push("module_body_fails");
+            if rd.flag() {
+                let j = rd.below(nmods);
+                body.push(Stmt::new(StmtKind::Import(paths[j].clone(), None)));
+            } else {
+                body.push(Stmt::new(StmtKind::Throw(s(&format!("failure in {}", paths[i])))));
             }
         }
         body.push(Stmt::print(s(&format!("loaded {}", paths[i]))));
